@@ -21,7 +21,7 @@ func init() {
 	engine.Register(&engine.Property{
 		ID:    "C13",
 		Level: "exploration",
-		Rule: "exhaustive: ALL 2^15 word sets over the words of length <= 3 over {a,b} x ALL patterns and ALL anagrams (as sequences: the order of the letters matters to the constructor) of length <= 3 over {a,b,?} plus some of length 4, each with blank '?' and with blank 'a' (a letter of the alphabet; '?' is then a letter outside it), through searcher objects that are created once and reused over all the sets of a block; all pattern x anagram pairs of equal length on every 32nd set (every 4th: thorough); " +
+		Rule: "exhaustive: ALL 2^15 word sets over the words of length <= 3 over {a,b} x ALL patterns and ALL anagrams (as sequences: the order of the letters matters to the constructor) of length <= 3 over {a,b,?} plus some of length 4, each with blank '?' and with blank 'a' (a letter of the alphabet; '?' is then a letter outside it), through searcher objects that are created once and reused over all the sets of a block; all pattern x anagram pairs of equal length on every 16th set (every set: thorough); the same over the 2^13 word sets of length <= 2 over {a,b,c} with all queries of length <= 2 over {a,b,c,?}; " +
 			"fixed families x blanks at every subset of positions of short members (patterns and rotated anagrams), all-blank and empty queries; seeded sets (alphabets 1..256, up to 5000 words) x conjunctions of 0..3 seeded queries (members with blanks, near-members, letters outside the alphabet, repeated letters, blank equal to a letter), each searched twice on the Dawg, once on another Dawg and again on the first, partly through counting wrappers. " +
 			"Reference: filter of the sorted list with byte-wise match predicates; ids = ranks. non-trivial = a search on a Dawg with >= 2 words whose expected result is neither empty nor the whole set; distinct = (set, conjunction) by construction in the exhaustive part, by hash otherwise",
 		Assumptions: []string{
@@ -31,8 +31,8 @@ func init() {
 			"unchanged Dawg = identical node dump (verif accessor) and identical Lookup results before and after",
 		},
 		Run:            run,
-		MinEvaluations: map[string]int{"quick": 3000000, "thorough": 10000000},
-		MinNontrivial:  map[string]int{"quick": 500000, "thorough": 2000000},
+		MinEvaluations: map[string]int{"quick": 5000000, "thorough": 30000000},
+		MinNontrivial:  map[string]int{"quick": 1000000, "thorough": 5000000},
 		RequiredObs: []string{"searches:pattern", "searches:anagram", "searches:pattern&anagram", "searches:no-searcher", "searches_with_reused_searchers", "searches_on_a_second_dawg",
 			"queries:blank_is_a_letter_of_the_set", "queries:letter_outside_the_set", "queries:anagram_with_repeated_letter", "queries:all_blank", "queries:empty", "dawg_unchanged_checks", "spy:balanced_step_backstep", "results:nonempty", "results:empty"},
 	})
@@ -252,9 +252,20 @@ func run(c *engine.Ctx) {
 // ---- 1. exhaustive ----
 
 func exhaustive(c *engine.Ctx) {
-	u := c12.Universe15()
-	texts := refdawg.Universe([]byte("ab?"), 3)
-	texts = append(texts, []byte("????"), []byte("a???"), []byte("abab"), []byte("?aab"), []byte("bb?a"))
+	exhaustiveOver(c, "exhaustive", "ab", 3, []string{"????", "a???", "abab", "?aab", "bb?a"}, 128, c.Pick(16, 1))
+	exhaustiveOver(c, "exhaustive3", "abc", 2, []string{"???", "a??", "cab", "?ca", "cc?", "abc?"}, 32, c.Pick(64, 8))
+}
+
+// exhaustiveOver: every subset of the words of length <= maxLen over the
+// alphabet x every pattern and anagram of length <= maxLen over alphabet+'?'
+// (plus the extra texts), with blank '?' and with blank 'a'; all pattern x
+// anagram pairs of equal length on every pairEvery-th set.
+func exhaustiveOver(c *engine.Ctx, name, alphabet string, maxLen int, extra []string, blocks, pairEvery int) {
+	u := refdawg.Universe([]byte(alphabet), maxLen)
+	texts := refdawg.Universe([]byte(alphabet+"?"), maxLen)
+	for _, e := range extra {
+		texts = append(texts, []byte(e))
+	}
 	var single []refdawg.Query
 	for _, blank := range []byte{'?', 'a'} {
 		for _, k := range []byte{'p', 'a'} {
@@ -263,26 +274,24 @@ func exhaustive(c *engine.Ctx) {
 			}
 		}
 	}
-	// pairs: pattern x anagram of equal length <= 3, blank '?'
+	// pairs: pattern x anagram of equal length <= maxLen, blank '?'
 	var pairs [][2]refdawg.Query
 	for _, p := range texts {
 		for _, a := range texts {
-			if len(p) == len(a) && len(p) <= 3 {
+			if len(p) == len(a) && len(p) <= maxLen {
 				pairs = append(pairs, [2]refdawg.Query{{Kind: 'p', Text: p, Blank: '?'}, {Kind: 'a', Text: a, Blank: '?'}})
 			}
 		}
 	}
-	pairEvery := c.Pick(32, 4)
-	const blocks = 128
-	per := (1 << 15) / blocks
-	label := "all 2^15 sets over {a,b}^<=3 x all patterns/anagrams of length<=3 over {a,b,?}"
+	per := (1 << uint(len(u))) / blocks
+	label := fmt.Sprintf("all 2^%d sets over the words of length<=%d over {%s} x all patterns/anagrams of length<=%d over {%s,?}", len(u), maxLen, alphabet, maxLen, alphabet)
 	for blk := 0; blk < blocks; blk++ {
 		blk := blk
-		c.Unit(fmt.Sprintf("exhaustive/%03d", blk), func() {
+		c.Unit(fmt.Sprintf("%s/%03d", name, blk), func() {
 			// searcher objects created once per block and reused over all its sets
 			var objs []dawg.Searcher
 			for _, q := range single {
-				ss, pi := dawgx.Searchers(c, "exhaustive|NewSearcher|"+q.String(), []refdawg.Query{q})
+				ss, pi := dawgx.Searchers(c, name+"|NewSearcher|"+q.String(), []refdawg.Query{q})
 				if pi != nil {
 					dawgx.Report(c, nil, pi, "NewSearcher", q.String(), map[string]interface{}{"query": q.String()})
 					return
@@ -291,7 +300,7 @@ func exhaustive(c *engine.Ctx) {
 			}
 			var pobjs [][]dawg.Searcher
 			for _, pq := range pairs {
-				ss, pi := dawgx.Searchers(c, "exhaustive|NewSearcher|pair", pq[:])
+				ss, pi := dawgx.Searchers(c, name+"|NewSearcher|pair", pq[:])
 				if pi != nil {
 					dawgx.Report(c, nil, pi, "NewSearcher", refdawg.QueriesString(pq[:]), nil)
 					return
@@ -303,7 +312,7 @@ func exhaustive(c *engine.Ctx) {
 			rid := make([][]int, len(objs))
 			for mask := blk * per; mask < (blk+1)*per; mask++ {
 				set := c12.SubsetOf(u, mask)
-				callKey := fmt.Sprintf("exhaustive|mask=%d", mask)
+				callKey := fmt.Sprintf("%s|mask=%d", name, mask)
 				d := buildFor(c, callKey, set)
 				if d == nil {
 					continue
@@ -351,7 +360,7 @@ func exhaustive(c *engine.Ctx) {
 					continue
 				}
 				c.Obs("searches:no-searcher", 1)
-				if mask%pairEvery == 1 {
+				if mask%pairEvery == 1%pairEvery {
 					pres := make([][][]byte, len(pobjs))
 					pid := make([][]int, len(pobjs))
 					if pi := c.Call(callKey+"|Search(all pairs)", func() {
@@ -381,7 +390,7 @@ func exhaustive(c *engine.Ctx) {
 			c.Obs("exhaustive_sets_searched", per)
 			if blk == 0 {
 				c.Obs("exhaustive:"+label+fmt.Sprintf(" (%d searcher objects, blanks '?' and 'a'), pattern x anagram pairs of equal length on every %dth set", len(single), pairEvery), 1)
-				c.Sample("exhaustive", map[string]interface{}{"single_queries": len(single), "pairs": len(pairs), "examples": []string{single[7].String(), single[60].String(), single[120].String(), refdawg.QueriesString(pairs[100][:])}})
+				c.Sample(name, map[string]interface{}{"universe": refdawg.QuoteList(u, 30), "single_queries": len(single), "pairs": len(pairs), "examples": []string{single[7].String(), single[len(single)/3].String(), single[2*len(single)/3].String(), refdawg.QueriesString(pairs[len(pairs)/8][:])}})
 			}
 		})
 	}
@@ -536,7 +545,7 @@ func searchRounds(c *engine.Ctx, b, other *built, callKey string, qs []refdawg.Q
 // ---- 3. seeded ----
 
 func seeded(c *engine.Ctx) {
-	nSets := c.Pick(6000, 40000)
+	nSets := c.Pick(8000, 80000)
 	perUnit := 40
 	for un := 0; un*perUnit < nSets; un++ {
 		un := un
